@@ -111,7 +111,7 @@ impl Property for Helpers {
     }
     fn budget(&self, tier: Tier) -> Budget {
         Budget {
-            cases: tier.pick(300_000, 20_000_000),
+            cases: tier.pick(3_000_000, 20_000_000),
             tape_len: 400,
         }
     }
@@ -231,7 +231,7 @@ impl Property for Cursor {
     }
     fn budget(&self, tier: Tier) -> Budget {
         Budget {
-            cases: tier.pick(300_000, 30_000_000),
+            cases: tier.pick(3_000_000, 30_000_000),
             tape_len: 500,
         }
     }
